@@ -36,7 +36,8 @@ def decodeAC (dd : DDerived) : Nat → Nat → List Bool → Option (List Int ×
     if rem = 0 then some ([], bits) else
     match decode dd bits with
     | none => none
-    | some (s, _, rest) =>
+    | some (_, true, _) => none          -- a bit pattern that is no code of the table
+    | some (s, false, rest) =>
       let r := s / 16
       let n := s % 16
       if n ≠ 0 then
@@ -56,6 +57,9 @@ def decodeAC (dd : DDerived) : Nat → Nat → List Bool → Option (List Int ×
       else none
 
 def decodeBlock (ddc dac : DDerived) (bits : List Bool) : Option (Int × List Int × List Bool) :=
+  match decode ddc bits with
+  | some (_, true, _) => none            -- a bit pattern that is no code of the DC table
+  | _ =>
   match decodeItem ddc bits with
   | none => none
   | some (diff, rest) =>
